@@ -449,17 +449,17 @@ class Scenario(object):
 
 def tiers(tier):
     if tier == 'quick':
-        return [('hub', Scenario(hub=True), 3), ('nohub', Scenario(hub=False, dup_label=False), 3),
-                ('hub-norefresh', Scenario(hub=True, refresh=(), dup_label=False), 4),
-                ('hub-2d', Scenario(hub=True, dup_label=False, shape=(2, 2)), 3),
-                ('in-collection', Scenario(hub=True, dup_label=False, collection=True), 3),
-                ('hub-3d-coords', Scenario(hub=True, dup_label=False, refresh=('same',), shape=(2, 1, 2)), 3)]
-    return [('hub', Scenario(hub=True), 4), ('nohub', Scenario(hub=False), 4),
-            ('hub-norefresh', Scenario(hub=True, refresh=()), 5),
-            ('in-collection', Scenario(hub=True, collection=True), 4),
-            ('in-collection-2d', Scenario(hub=True, collection=True, dup_label=False, shape=(2, 2)), 4),
-            ('hub-2d', Scenario(hub=True, shape=(2, 2)), 4), ('nohub-2d', Scenario(hub=False, shape=(2, 2)), 4),
-            ('hub-3d-coords', Scenario(hub=True, dup_label=False, refresh=('same', 'newcomps'), shape=(2, 1, 2)), 4)]
+        return [('hub', Scenario(hub=True), 5), ('nohub', Scenario(hub=False, dup_label=False), 5),
+                ('hub-norefresh', Scenario(hub=True, refresh=(), dup_label=False), 6),
+                ('hub-2d', Scenario(hub=True, dup_label=False, shape=(2, 2)), 5),
+                ('in-collection', Scenario(hub=True, dup_label=False, collection=True), 5),
+                ('hub-3d-coords', Scenario(hub=True, dup_label=False, refresh=('same',), shape=(2, 1, 2)), 5)]
+    return [('hub', Scenario(hub=True), 5), ('nohub', Scenario(hub=False), 5),
+            ('hub-norefresh', Scenario(hub=True, refresh=()), 6),
+            ('in-collection', Scenario(hub=True, collection=True), 5),
+            ('in-collection-2d', Scenario(hub=True, collection=True, dup_label=False, shape=(2, 2)), 5),
+            ('hub-2d', Scenario(hub=True, shape=(2, 2)), 5), ('nohub-2d', Scenario(hub=False, shape=(2, 2)), 5),
+            ('hub-3d-coords', Scenario(hub=True, dup_label=False, refresh=('same', 'newcomps'), shape=(2, 1, 2)), 5)]
 
 
 def run(tier):
